@@ -29,8 +29,12 @@ def natsN (n : Nat) : P (List Nat) := do
 def nEvalOf : Exit → Nat
   | .negCurvA | .negCurvB => 2
   | .alphaNaN => 0
+  | .zeroGrad => 0
   | .overLong | .interior => 1
   | .fuel => 999
+
+/-- Number of `hess_prod(d, Bd)` calls: one per started iteration; none when the gradient is zero. -/
+def nBdOf (res : Res Float) : Nat := if res.exit == .zeroGrad then 0 else res.st.i + 1
 
 def c11Step (_ : Unit) (line : String) : Unit × String :=
   let out : Option String :=
@@ -42,7 +46,7 @@ def c11Step (_ : Unit) (line : String) : Unit × String :=
         let Δ ← flt; let ts ← flt; let tr ← flt; let tm ← flt; let mf ← flt
         let B := matVec (rowsOf n flat)
         let res := steihaug copysignF B g Δ tm ts tr (cgMaxIter roundF n mf)
-        pure s!"{fmtF res.q} {fmtV res.s} {res.st.i + 1} {nEvalOf res.exit} {fmtV res.st.z} {fmtV res.st.r} {fmtV res.st.d} {if res.exit == .negCurvA || res.exit == .negCurvB then fmtF res.dsq else "none"}") r
+        pure s!"{fmtF res.q} {fmtV res.s} {nBdOf res} {nEvalOf res.exit} {fmtV res.st.z} {fmtV res.st.r} {fmtV res.st.d} {if res.exit == .negCurvA || res.exit == .negCurvB then fmtF res.dsq else "none"}") r
     | "ntr" :: r => run (do
         let p ← vec
         let n := p.length
@@ -56,7 +60,7 @@ def c11Step (_ : Unit) (line : String) : Unit × String :=
         match newtonTR copysignF H J γ p hvf radius eps tm ts tr (cgMaxIter roundF nJ mf) with
         | none => pure "exception"
         | some o =>
-          let calls := (if ntrUseHess hvf then 1 else 0) + (o.cg.st.i + 1) + nEvalOf o.cg.exit
+          let calls := (if ntrUseHess hvf then 1 else 0) + nBdOf o.cg + nEvalOf o.cg.exit
           pure s!"{fmtF o.val} {fmtV o.q} {calls} {fmtV o.cg.s}") r
     | _ => some "bad-op"
   ((), out.getD "parse-error")
